@@ -207,6 +207,23 @@ func parseAcct(t *tokens) Acct {
 		p.Blob = h.UnHex(t.next())
 		a.Pre = append(a.Pre, p)
 	}
+	// an account is a triple of maps: the same key twice is not a state (both sides answer BADCASE)
+	seen := map[string]bool{}
+	mark := func(k string) {
+		if seen[k] {
+			panic("verifh: BADCASE duplicate key")
+		}
+		seen[k] = true
+	}
+	for _, s := range a.Stor {
+		mark("s" + string(s.K))
+	}
+	for _, l := range a.Look {
+		mark(fmt.Sprintf("l%x/%d", l.H, l.Z))
+	}
+	for _, p := range a.Pre {
+		mark(fmt.Sprintf("p%x", p.H))
+	}
 	if t.p < len(t.t) && t.t[t.p] == "RC" {
 		t.p++
 		a.HasRC = true
@@ -236,8 +253,14 @@ func ParseSeq(t *tokens) *Case {
 	c.In = parseCsv(t.next())
 	t.expect("A")
 	n := int(t.u64())
+	ids := map[uint32]bool{}
 	for i := 0; i < n; i++ {
-		c.Accts = append(c.Accts, parseAcct(t))
+		a := parseAcct(t)
+		if ids[a.ID] {
+			panic("verifh: BADCASE duplicate key")
+		}
+		ids[a.ID] = true
+		c.Accts = append(c.Accts, a)
 	}
 	t.expect("O")
 	n = int(t.u64())
@@ -649,7 +672,16 @@ func RunSeq(c *Case) string {
 }
 
 // Run dispatches one case line.
-func Run(input string) string {
+func Run(input string) (out string) {
+	defer func() {
+		if r := recover(); r != nil {
+			if msg, ok := r.(string); ok && strings.Contains(msg, "BADCASE") {
+				out = "BADCASE"
+				return
+			}
+			panic(r)
+		}
+	}()
 	f := strings.Fields(input)
 	t := &tokens{t: f}
 	switch t.next() {
